@@ -140,7 +140,7 @@ def check(model, R, tier):
         ok = len(st) == 1 and norm(st[0].value) in ('OrderedDict()', 'dict()', '{}', 'collections.OrderedDict()')
         R.ob('C12.ORDER', init.qualname, 'self.%s = %s' % (r, norm(st[0].value) if st else None), ok, 'registries must be insertion ordered mappings', init.loc)
     allowed = {MOD + '.__init__', MOD + '.register_module', MOD + '.register_parameter', MOD + '.__setattr__'}
-    for fn in model.funcs.values():
+    for fn in model.live_funcs():
         if fn.mod.modname.startswith('synapgrad.nn') or fn.mod.modname.startswith('synapgrad.optim'):
             eff = registry_effects(model, fn, fn.node.body, depth=99)
             direct = bool(eff)
